@@ -130,7 +130,11 @@ def prune_tree(sc):
     if "tree" not in sc:
         return sc
     used = 0
+    flat = []
     for op in sc["ops"]:
+        flat.append(op)
+        flat.extend(op.get("inner", []))
+    for op in flat:
         if op.get("op") in ("Deliver", "Truncate"):
             used = max(used, op["b"])
     # ancestors of used blocks have smaller indexes, uncles candidates too: safe to cut the tail
